@@ -13,7 +13,7 @@ the stores gives the current tree, bits and header.
 -/
 namespace HC.ReplicaReopen
 open HC HC.Codec HC.Flat HC.Tree HC.RefTree HC.RefProof HC.Sound HC.Offsets HC.TreeStore HC.Complete HC.UpgradeSound HC.CreateTotal
-  HC.Replica HC.Growth HC.HashReq HC.Oplog HC.Core HC.OplogBytes HC.FormatLimits HC.BitfieldPages
+  HC.Replica HC.Growth HC.HashReq HC.Oplog HC.Core HC.OplogBytes HC.FormatLimits HC.BitfieldPages HC.Touch
 
 /-! ### `truncate` on a sparse tree that stores the roots of the target length -/
 
@@ -304,13 +304,112 @@ theorem persist_entry (C : Crypto) (c c1 : Core) (d : Disk) (hf : Header) (es : 
     rw [hbf, replay_congr C d _ htree, replay_append, e1]
     exact f1
 
+/-! ### extra ghost facts (what recovery from a cut flush needs, `ReplicaCrash`) -/
+
+def SetOnly (es : List Entry) : Prop := ∀ e ∈ es, ∀ u, e.bitfield = some u → u.drop = false
+
+/-- the entries only set bits; the header's hint was exact for some set of bits `B0` that the bitfield store contains
+    and that, together with the entries, covers the live bits; the tree store and the unflushed map hold reference
+    nodes only; the roots of the header's length are in the tree store -/
+structure Extra (C : Crypto) (bs : Array Bytes) (c : Core) (d : Disk) (hf : Header) (es : List Entry) : Prop where
+  setOnly : SetOnly es
+  ghost : ∃ B0 : Nat → Bool, ((∀ i, i < hf.contiguous → B0 i = true) ∧ B0 hf.contiguous = false)
+    ∧ (∀ i, B0 i = true → (Bitfield.ofFile d.bitfield).get i = true)
+    ∧ (∀ i, c.bitfield.get i = true → B0 i = true ∨ ∃ e ∈ es, Touches e i)
+  fileRef : ∀ i n, ({} : Tree).node? d.tree i = some n → ∃ dd o, i = Flat.index dd o ∧ n = nodeAt C bs dd o
+  unflRef : ∀ i n, c.tree.unflushed[i]? = some n → ∃ dd o, i = Flat.index dd o ∧ n = nodeAt C bs dd o
+  rootsStored : ∃ m0, hf.tree.length = m0 ∧ m0 < 2 ^ 64
+    ∧ ∀ p ∈ rootsStack m0, ({} : Tree).node? d.tree (Flat.index p.1 p.2) = some (nodeAt C bs p.1 p.2)
+
+/-- logging one entry keeps the extra facts -/
+theorem extra_entry (C : Crypto) (bs : Array Bytes) (c c1 : Core) (d d1 : Disk) (hf : Header) (es : List Entry) (e : Entry)
+    (hx : Extra C bs c d hf es) (ht : d1.tree = d.tree) (hb : d1.bitfield = d.bitfield)
+    (hset : ∀ u, e.bitfield = some u → u.drop = false)
+    (hbits : ∀ i, c1.bitfield.get i = true → c.bitfield.get i = true ∨ Touches e i)
+    (hunfl : c1.tree.unflushed = insertAll c.tree.unflushed e.treeNodes)
+    (href : ∀ n ∈ e.treeNodes, ∃ dd o, n = nodeAt C bs dd o) :
+    Extra C bs c1 d1 hf (es ++ [e]) := by
+  obtain ⟨B0, g1, g2, g3⟩ := hx.ghost
+  refine ⟨?_, ⟨B0, g1, by rw [hb]; exact g2, ?_⟩, by rw [ht]; exact hx.fileRef, ?_, by rw [ht]; exact hx.rootsStored⟩
+  · intro x hxm u hu
+    rcases List.mem_append.mp hxm with h | h
+    · exact hx.setOnly x h u hu
+    · simp only [List.mem_singleton] at h; subst h; exact hset u hu
+  · intro i hi
+    rcases hbits i hi with h | h
+    · rcases g3 i h with h' | ⟨x, hxm, hxt⟩
+      · exact Or.inl h'
+      · exact Or.inr ⟨x, List.mem_append.mpr (Or.inl hxm), hxt⟩
+    · exact Or.inr ⟨e, List.mem_append.mpr (Or.inr (by simp)), h⟩
+  · intro i n hn
+    rw [hunfl] at hn
+    by_cases hex : ∃ x ∈ e.treeNodes, x.index = i
+    · obtain ⟨x, hxm, hxi, hget⟩ := insertAll_hit e.treeNodes c.tree.unflushed i hex
+      rw [hget] at hn
+      have hnx : n = x := (Option.some.inj hn).symm
+      obtain ⟨dd, o, hxe⟩ := href x hxm
+      refine ⟨dd, o, ?_, by rw [hnx, hxe]⟩
+      rw [← hxi, hxe]; rfl
+    · rw [insertAll_miss e.treeNodes c.tree.unflushed i (fun x hxm hxi => hex ⟨x, hxm, hxi⟩)] at hn
+      exact hx.unflRef i n hn
+
 /-- **the periodic flush keeps the ghost invariant** (with the current header and no entries when it flushes) -/
 theorem persist_maybeFlush (C : Crypto) (bs : Array Bytes) (m : Nat) (c : Core) (d : Disk) (held : Nat → Bool) (hf : Header) (es : List Entry)
-    (hr : RepRAt C bs m c d held) (hp : PersistR C c d hf es) :
-    ∃ hf' es', PersistR C c.maybeFlush.1 (d.applyAll c.maybeFlush.2) hf' es' := by
+    (hr : RepRAt C bs m c d held) (hp : PersistR C c d hf es) (hx : Extra C bs c d hf es) :
+    ∃ hf' es', PersistR C c.maybeFlush.1 (d.applyAll c.maybeFlush.2) hf' es' ∧ Extra C bs c.maybeFlush.1 (d.applyAll c.maybeFlush.2) hf' es' := by
   rw [LiveRefine.maybeFlush_eq]
   split
-  · refine ⟨c.header, [], ?_⟩
+  · refine ⟨c.header, [], ?_, ?_⟩
+    rotate_left
+    · -- the extra facts after the flush
+      simp only [Core.flushAll]
+      have hj1 := Journal.bitfieldFlush_store c.bitfield
+      have hj2 := Journal.treeFlush_store c.tree
+      have hj3 := Journal.oplogFlush_store c.oplog c.header false
+      obtain ⟨L, hfl, hlook, hal⟩ := flush_lookup c.tree d.tree hr.mapwf hr.aligned
+      have e1 : d.applyAll (c.bitfield.flush.2 ++ c.tree.flush.2 ++ (Oplog.flush c.oplog c.header false).2)
+          = ((d.applyAll c.bitfield.flush.2).applyAll c.tree.flush.2).applyAll (Oplog.flush c.oplog c.header false).2 := by
+        rw [Journal.applyAll_append, Journal.applyAll_append]
+      have htree : (d.applyAll (c.bitfield.flush.2 ++ c.tree.flush.2 ++ (Oplog.flush c.oplog c.header false).2)).tree = writeSlots d.tree L := by
+        rw [e1, LiveRefine.tree_of_applyAll _ _ (fun op hop => by rw [hj3 op hop]; decide), hfl]
+        simp only []
+        rw [applyAll_tree_writes]
+        simp only []
+        rw [LiveRefine.tree_of_applyAll _ _ (fun op hop => by rw [hj1 op hop]; decide)]
+      have hbfile : (d.applyAll (c.bitfield.flush.2 ++ c.tree.flush.2 ++ (Oplog.flush c.oplog c.header false).2)).bitfield
+          = writePages c.bitfield d.bitfield c.bitfield.dirty := by
+        have e2 : d.applyAll (c.bitfield.flush.2 ++ c.tree.flush.2 ++ (Oplog.flush c.oplog c.header false).2)
+            = (d.applyAll c.bitfield.flush.2).applyAll (c.tree.flush.2 ++ (Oplog.flush c.oplog c.header false).2) := by
+          rw [List.append_assoc, Journal.applyAll_append]
+        have e3 := Journal.applyAll_other (d.applyAll c.bitfield.flush.2)
+          (c.tree.flush.2 ++ (Oplog.flush c.oplog c.header false).2) .bitfield
+          (fun op hop => by
+            rcases List.mem_append.mp hop with h | h
+            · rw [hj2 op h]; decide
+            · rw [hj3 op h]; decide)
+        simp only [Disk.get] at e3
+        rw [e2, e3]
+        exact Persist.applyAll_bitfield_writes c.bitfield d c.bitfield.dirty
+      obtain ⟨g1, _⟩ := flush_bits c.bitfield d.bitfield hp.bfSize hp.dirty
+      have hbget : ∀ i, c.bitfield.flush.1.get i = c.bitfield.get i := fun i => by simp [Bitfield.flush, Bitfield.get]
+      have hfileLook : ∀ i, ({} : Tree).node? (writeSlots d.tree L) i = c.tree.node? d.tree i := by
+        intro i
+        rw [← hlook i]
+        exact node?_congr _ _ _ _ rfl
+      have hm64 : m < 2 ^ 64 := by have := hr.small.1; have := hr.le; omega
+      refine ⟨(fun x hxm => by cases hxm), ⟨fun i => c.bitfield.get i, hr.contig, (fun i hi => by rw [hbfile, g1 i]; exact hi),
+        (fun i hi => Or.inl (by show c.bitfield.get i = true; rw [← hbget]; exact hi))⟩, ?_, ?_, ⟨m, (by rw [hp.hdrLen]; exact hr.closed.sparse.length), hm64, ?_⟩⟩
+      · intro i n hn
+        rw [htree, hfileLook] at hn
+        obtain ⟨dd, o, e1', e2', _⟩ := hr.closed.sparse.sound i n hn
+        exact ⟨dd, o, e1', e2'⟩
+      · intro i n hn
+        have : c.tree.flush.1 = { c.tree with unflushed := {} } := by rw [hfl]
+        rw [show (c.tree.flush.1).unflushed = ({} : NMap) from by rw [this]] at hn
+        simp at hn
+      · intro p hp'
+        rw [htree, hfileLook]
+        exact hr.closed.sparse.roots p hp'
     simp only [Core.flushAll]
     have hj1 := Journal.bitfieldFlush_store c.bitfield
     have hj2 := Journal.treeFlush_store c.tree
@@ -384,9 +483,11 @@ theorem persist_maybeFlush (C : Crypto) (bs : Array Bytes) (m : Nat) (c : Core) 
       rw [htf]; exact hp.hdrFork
     · show c.tree.flush.1.signature = _
       rw [htf]; exact hp.hdrSig
-  · refine ⟨hf, es, ?_⟩
-    simp only [Disk.applyAll, List.foldl_nil]
-    exact ⟨hp.oplog, hp.replay, hp.bfSize, hp.dirty, hp.shape, hp.hdrLen, hp.hdrFork, hp.hdrSig, hp.hdrSigLen, hp.keys⟩
+  · refine ⟨hf, es, ?_, ?_⟩
+    · simp only [Disk.applyAll, List.foldl_nil]
+      exact ⟨hp.oplog, hp.replay, hp.bfSize, hp.dirty, hp.shape, hp.hdrLen, hp.hdrFork, hp.hdrSig, hp.hdrSigLen, hp.keys⟩
+    · simp only [Disk.applyAll, List.foldl_nil]
+      exact ⟨hx.setOnly, hx.ghost, hx.fileRef, hx.unflRef, hx.rootsStored⟩
 
 /-! ### the replica's entries fit the format -/
 
@@ -453,7 +554,7 @@ theorem entry_ok (nodes : List Node) (up : Option TreeUpgrade) (bf : Option Bitf
 /-- the replica invariant together with the ghost invariant -/
 structure RP (C : Crypto) (bs : Array Bytes) (m : Nat) (c : Core) (d : Disk) (held : Nat → Bool) : Prop where
   rep : RepRAt C bs m c d held
-  per : ∃ hf es, PersistR C c d hf es
+  per : ∃ hf es, PersistR C c d hf es ∧ Extra C bs c d hf es
   size : bs.size < 2 ^ 62
 
 /-- a step that logs one entry and then runs the periodic flush -/
@@ -461,19 +562,38 @@ theorem rp_step (C : Crypto) (bs : Array Bytes) (m m' : Nat) (c c1 : Core) (d : 
     (e : Entry) (j0 : List SOp) (h : RP C bs m c d held)
     (hshape : st.core = c1.maybeFlush.1 ∧ st.journal = (j0 ++ (Oplog.appendEntry c.oplog e).2) ++ c1.maybeFlush.2)
     (hrep1 : RepRAt C bs m' c1 (d.applyAll (j0 ++ (Oplog.appendEntry c.oplog e).2)) held')
-    (hper1 : ∀ hf es, PersistR C c d hf es → PersistR C c1 (d.applyAll (j0 ++ (Oplog.appendEntry c.oplog e).2)) hf (es ++ [e])) :
+    (hper1 : ∀ hf es, PersistR C c d hf es → PersistR C c1 (d.applyAll (j0 ++ (Oplog.appendEntry c.oplog e).2)) hf (es ++ [e]))
+    (hj0 : ∀ op ∈ j0, op.store = .data)
+    (hset : ∀ u, e.bitfield = some u → u.drop = false)
+    (hbits : ∀ i, c1.bitfield.get i = true → c.bitfield.get i = true ∨ Touches e i)
+    (hunfl : c1.tree.unflushed = insertAll c.tree.unflushed e.treeNodes)
+    (href : ∀ n ∈ e.treeNodes, ∃ dd o, n = nodeAt C bs dd o) :
     RP C bs m' st.core (d.applyAll st.journal) held' := by
-  obtain ⟨hf, es, hp⟩ := h.per
+  obtain ⟨hf, es, hp, hx⟩ := h.per
   have hp1 := hper1 hf es hp
+  have hja : ∀ op ∈ (Oplog.appendEntry c.oplog e).2, op.store = .oplog := Journal.appendEntry_store _ _
+  have hall : ∀ op ∈ j0 ++ (Oplog.appendEntry c.oplog e).2, op.store = .data ∨ op.store = .oplog := by
+    intro op hop
+    rcases List.mem_append.mp hop with h | h
+    · exact Or.inl (hj0 op h)
+    · exact Or.inr (hja op h)
+  have htree : (d.applyAll (j0 ++ (Oplog.appendEntry c.oplog e).2)).tree = d.tree :=
+    LiveRefine.tree_of_applyAll _ _ (fun op hop => by rcases hall op hop with h | h <;> rw [h] <;> decide)
+  have hbf : (d.applyAll (j0 ++ (Oplog.appendEntry c.oplog e).2)).bitfield = d.bitfield := by
+    have := Journal.applyAll_other d (j0 ++ (Oplog.appendEntry c.oplog e).2) .bitfield (fun op hop => by rcases hall op hop with h | h <;> rw [h] <;> decide)
+    simpa [Disk.get] using this
+  have hx1 := extra_entry C bs c c1 d _ hf es e hx htree hbf hset hbits hunfl href
   rw [hshape.1, hshape.2, Journal.applyAll_append]
-  exact ⟨maybeFlush_reprAt C bs m' _ _ _ hrep1, persist_maybeFlush C bs m' c1 _ held' hf (es ++ [e]) hrep1 hp1, h.size⟩
+  exact ⟨maybeFlush_reprAt C bs m' _ _ _ hrep1, persist_maybeFlush C bs m' c1 _ held' hf (es ++ [e]) hrep1 hp1 hx1, h.size⟩
 
 /-- **closing and reopening keeps both invariants** -/
 theorem rp_reopen (C : Crypto) (bs : Array Bytes) (m : Nat) (c : Core) (d : Disk) (held : Nat → Bool) (h : RP C bs m c d held) :
     ∃ c', openCore C none d = .ok (c', []) ∧ RP C bs m c' d held ∧ c'.publicKey = c.publicKey ∧ c'.tree = c.tree := by
-  obtain ⟨hf, es, hp⟩ := h.per
+  obtain ⟨hf, es, hp, hx⟩ := h.per
   obtain ⟨c', h1, h2, h3, h4, h5⟩ := reopen_replica C bs m c d held hf es h.rep hp
-  exact ⟨c', h1, ⟨h2, ⟨hf, es, h3⟩, h.size⟩, h4, h5⟩
+  obtain ⟨B0, g1, g2, g3⟩ := hx.ghost
+  exact ⟨c', h1, ⟨h2, ⟨hf, es, h3, ⟨hx.setOnly, ⟨B0, g1, g2, (fun i hi => g3 i (by rw [h.rep.bits i, ← h2.bits i]; exact hi))⟩,
+    hx.fileRef, by rw [h5]; exact hx.unflRef, hx.rootsStored⟩⟩, h.size⟩, h4, h5⟩
 
 theorem contig_le_at (C : Crypto) (bs : Array Bytes) (m : Nat) (c : Core) (d : Disk) (held : Nat → Bool) (h : RepRAt C bs m c d held) :
     c.header.contiguous ≤ m := by
@@ -560,6 +680,20 @@ theorem rp_block (C : Crypto) (hC : HashWF C) (bs : Array Bytes) (m : Nat) (c : 
       · rw [hc1h, hc1t, hue]; exact hp.hdrSig
       · rw [hc1h, hue]; exact hp.hdrSigLen
       · rw [hc1h, hue]; exact hp.keys)
+    (fun op hop => by simp at hop; subst hop; rfl)
+    (fun u hu => by rw [← he] at hu; cases hu; rfl)
+    (fun j hj => by
+      rw [hc1b, Bitfield.get_setRange] at hj
+      split at hj
+      · rename_i hin'
+        exact Or.inr ⟨⟨false, i, 1⟩, by rw [← he], hin'.1, hin'.2⟩
+      · exact Or.inl hj)
+    (by rw [hc1t])
+    (fun x hx => by
+      rw [← he] at hx
+      obtain ⟨dd, o, hxe, hb⟩ := blockNodes_bound C (bs.extract 0 m) i k (by rw [hsz]; exact hin) x hx
+      rw [hsz] at hb
+      exact ⟨dd, o, by rw [hxe, nodeAt_extract C bs m hr.le dd o hb]⟩)
   refine ⟨by rw [hshape], hstep, ?_, ?_⟩
   · rw [hshape]
     simp only []
@@ -628,6 +762,16 @@ theorem rp_hash (C : Crypto) (hC : HashWF C) (bs : Array Bytes) (m : Nat) (c : C
       · rw [hc1h, hc1t]; exact hp.hdrSig
       · rw [hc1h]; exact hp.hdrSigLen
       · rw [hc1h]; exact hp.keys)
+    (fun op hop => by cases hop)
+    (fun u hu => by rw [← he] at hu; cases hu)
+    (fun j hj => Or.inl (by rw [hc1b] at hj; exact hj))
+    (by rw [hc1t])
+    (fun x hx => by
+      rw [hen] at hx
+      generalize hk : c.tree.missingNodes d.tree (Flat.index d0 o0) = k at hin
+      simp only [hashNodes, hk] at hx
+      obtain ⟨dd, o, hxe, hb⟩ := pathNodes_bound C (bs.extract 0 m) d0 o0 k _ hin x hx
+      exact ⟨dd, o, by rw [hxe, nodeAt_extract C bs m hr.le dd o hb]⟩)
   refine ⟨by rw [hshape], by simpa using hstep, ?_, ?_⟩
   · rw [hshape]
     simp only []
@@ -741,6 +885,15 @@ theorem rp_grow (C : Crypto) (hC : HashWF C) (hT : TreeWF C) (bs : Array Bytes) 
       · rw [hhd]; show cs.signature = _; simp only [hsne, Bool.false_eq_true, ite_false]; exact hsig
       · rw [hhd]; exact Or.inr hsl
       · rw [hhd]; exact hp.keys)
+    (fun op hop => by cases hop)
+    (fun u hu => by rw [he'] at hu; cases hu)
+    (fun j hj => Or.inl hj)
+    (by rw [he']; rfl)
+    (fun x hx => by
+      rw [he'] at hx
+      simp only [Changeset.nodes, List.mem_reverse] at hx
+      obtain ⟨d1, o1, e1, _⟩ := hinv.nodesRef x hx
+      exact ⟨d1, o1, e1⟩)
   refine ⟨by rw [hshape], by simpa using hstep, ?_, ?_⟩
   · rw [hshape]
     simp only []
@@ -763,7 +916,8 @@ theorem hdrShape_new_replica (pk : Bytes) (hpk : pk.length = 32) : HdrShape (Hea
 theorem init_replica (C : Crypto) (pk : Bytes) (hpk : pk.length = 32) :
     ∃ c j, Core.openCore C (some (pk, none)) {} = .ok (c, j) ∧ c.publicKey = pk ∧ c.tree.fork = 0
       ∧ (∀ bs : Array Bytes, bs.size < 2 ^ 64 ∧ psum bs bs.size < 2 ^ 64 → FreshR C bs c (({} : Disk).applyAll j))
-      ∧ PersistR C c (({} : Disk).applyAll j) (Header.new pk none) [] := by
+      ∧ PersistR C c (({} : Disk).applyAll j) (Header.new pk none) []
+      ∧ (∀ bs : Array Bytes, Extra C bs c (({} : Disk).applyAll j) (Header.new pk none) []) := by
   generalize hih : Oplog.insertHeader (Header.new pk none) 0 Spec.initialBits false = ih
   have hops : ∀ op ∈ ih.2, op.store = .oplog := by rw [← hih]; exact Journal.insertHeader_store _ _ _ _
   have ho : Oplog.openLog (some (pk, none)) [] = .ok ⟨{ bits := ih.1 }, Header.new pk none, ih.2, []⟩ := by
@@ -779,7 +933,15 @@ theorem init_replica (C : Crypto) (pk : Bytes) (hpk : pk.length = 32) :
     rw [hd1bf]; simp [Bitfield.ofFile, File.empty, File.size]
   have hshape := hdrShape_new_replica pk hpk
   refine ⟨{ publicKey := pk, secret := none, oplog := { bits := ih.1 }, header := Header.new pk none,
-            tree := {}, bitfield := {}, skipFlush := 0 }, ih.2, ?_, rfl, rfl, ?_, ?_⟩
+            tree := {}, bitfield := {}, skipFlush := 0 }, ih.2, ?_, rfl, rfl, ?_, ?_, ?_⟩
+  rotate_right
+  · intro bs
+    refine ⟨(fun x hx => by cases hx), ⟨fun _ => false, ⟨(fun i hi => by simp [Header.new] at hi), rfl⟩, (fun i hi => by cases hi),
+      (fun i hi => by simp [Bitfield.get] at hi)⟩, ?_, ?_, ⟨0, rfl, by omega, (fun p hp => by simp [RefProof.rootsStack_zero] at hp)⟩⟩
+    · intro i n h
+      rw [hd1tree] at h
+      simp [Tree.node?, File.read, File.empty, File.size, Spec.nodeSize] at h
+    · intro i n h; simp at h
   · have hdisk : (({} : Disk).oplog.toList) = [] := rfl
     simp only [Core.openCore, hdisk, ho, htree, hbf, Core.openCore.replay]
     rfl
@@ -808,7 +970,7 @@ theorem init_replica (C : Crypto) (pk : Bytes) (hpk : pk.length = 32) :
 /-- **first contact keeps the ghost invariant and establishes the replica invariant** -/
 theorem rp_first (C : Crypto) (hC : HashWF C) (hT : TreeWF C) (bs : Array Bytes) (hs : bs.size < 2 ^ 62 ∧ psum bs bs.size < 2 ^ 64)
     (n : Nat) (h0 : 0 < n) (hn : n ≤ bs.size) (c : Core) (d : Disk) (h : FreshR C (bs.extract 0 n) c d)
-    (hper : ∃ hf es, PersistR C c d hf es) (sig : Bytes) (hsl : sig.length = 64)
+    (hper : ∃ hf es, PersistR C c d hf es ∧ Extra C bs c d hf es) (sig : Bytes) (hsl : sig.length = 64)
     (hver : C.verify c.publicKey (signableAt C bs n c.tree.fork) sig = true) :
     (c.verifyAndApply C d (honestFirst C bs c.tree.fork n sig)).result = .ok true
       ∧ RP C bs n (c.verifyAndApply C d (honestFirst C bs c.tree.fork n sig)).core
@@ -841,7 +1003,7 @@ theorem rp_first (C : Crypto) (hC : HashWF C) (hT : TreeWF C) (bs : Array Bytes)
   have htree : (d.applyAll (Oplog.appendEntry c.oplog e).2).tree = d.tree :=
     LiveRefine.tree_of_applyAll _ _ (fun op hop => by rw [hj1 op hop]; decide)
   have hsne : sig.isEmpty = false := by cases sig with | nil => simp at hsl | cons a l => rfl
-  obtain ⟨hf, es, hp⟩ := hper
+  obtain ⟨hf, es, hp, hx⟩ := hper
   have hp1 : PersistR C (growCore c cs) (d.applyAll ([] ++ (Oplog.appendEntry c.oplog e).2)) hf (es ++ [e]) := by
     refine persist_entry C c _ d hf es e _ hp ?_ (fun op hop => by cases hop) hc1o ?_ ?_ ?_ ?_ ?_ ?_ ?_ ?_
     · rw [he']
@@ -879,11 +1041,21 @@ theorem rp_first (C : Crypto) (hC : HashWF C) (hT : TreeWF C) (bs : Array Bytes)
     · rw [hhd]; exact Or.inr hsl
     · rw [hhd]; exact hp.keys
   simp only [List.nil_append] at hp1
+  have hbf1 : (d.applyAll (Oplog.appendEntry c.oplog e).2).bitfield = d.bitfield := by
+    have := Journal.applyAll_other d (Oplog.appendEntry c.oplog e).2 .bitfield (fun op hop => by rw [hj1 op hop]; decide)
+    simpa [Disk.get] using this
+  have hx1 : Extra C bs (growCore c cs) (d.applyAll (Oplog.appendEntry c.oplog e).2) hf (es ++ [e]) :=
+    extra_entry C bs c (growCore c cs) d _ hf es e hx htree hbf1 (fun u hu => by rw [he'] at hu; cases hu) (fun j hj => Or.inl hj)
+      (by rw [he']; rfl)
+      (fun x hxm => by
+        rw [he', hnodes, rootsAt] at hxm
+        obtain ⟨p, _, rfl⟩ := List.mem_map.mp hxm
+        exact ⟨p.1, p.2, rfl⟩)
   refine ⟨by rw [hshape], ?_, ?_, ?_⟩
   · rw [hshape]
     simp only []
     rw [Journal.applyAll_append]
-    exact ⟨maybeFlush_reprAt C bs n _ _ _ hrep1, persist_maybeFlush C bs n (growCore c cs) _ (fun _ => false) hf (es ++ [e]) hrep1 hp1, hs.1⟩
+    exact ⟨maybeFlush_reprAt C bs n _ _ _ hrep1, persist_maybeFlush C bs n (growCore c cs) _ (fun _ => false) hf (es ++ [e]) hrep1 hp1 hx1, hs.1⟩
   · rw [hshape]
     simp only []
     rw [LiveRefine.maybeFlush_eq]
